@@ -13,7 +13,7 @@ BOUNDS = {
              "pairs; positions symbolic, so the solver places spikes on the edges and on each other) and on 3 trains "
              "with 0..1 spikes each; keyword settings: defaults and (MRTS symbolic > 0, max_tau symbolic > 0, RI for SPIKE); "
              "whole recording and a symbolic sub-interval where the function accepts one; py and pyx",
-    "thorough": "2 trains with 0..3 spikes (n1+n2 <= 5), 3 trains with 0..2 spikes (sum <= 4), 4 trains with 0..1 spikes",
+    "thorough": "2 trains with 0..3 spikes (n1+n2 <= 4), 3 trains with 0..2 spikes (sum <= 3), 4 trains with 0..1 spikes (sum <= 3); all keyword settings also with a sub-interval",
 }
 OUTSIDE = "larger inputs; plotting helpers; optimal_spike_train_sorting (needs the compiled extension)"
 ASSUMPTIONS = ["non-finite = result of a division whose denominator can be 0 on the path (poison) or nan/inf in floats",
@@ -40,9 +40,9 @@ def configs(tier):
     sizes = [ns for ns in itertools.product(range(3), repeat=2)]
     sizes += [ns for ns in itertools.product(range(2), repeat=3)]
     if not q:
-        sizes = [ns for ns in itertools.product(range(4), repeat=2) if sum(ns) <= 5]
-        sizes += [ns for ns in itertools.product(range(3), repeat=3) if sum(ns) <= 4]
-        sizes += [ns for ns in itertools.product(range(2), repeat=4)]
+        sizes = [ns for ns in itertools.product(range(4), repeat=2) if sum(ns) <= 4]
+        sizes += [ns for ns in itertools.product(range(3), repeat=3) if sum(ns) <= 3]
+        sizes += [ns for ns in itertools.product(range(2), repeat=4) if sum(ns) <= 3]
     for be in ("py", "pyx"):
         for (fn, iv, kk) in FUNCS:
             for ns in sizes:
